@@ -1,5 +1,6 @@
 (* C08 - the stored record mirrors the MLS state.  Statements only. *)
 From MDK Require Import Base.Prelude Base.AMap Mdk.Engine Mdk.EngineSpec Mdk.EngineProofs.
+From MDK Require Import Mdk.Welcome Mdk.WelcomeProofs.
 From MDK Require Import Mdk.EngineProofs4 Mdk.EngineProofs5.
 
 Theorem C08_inv_init : forall i a r, Inv (init_client i a r).
@@ -34,3 +35,30 @@ Theorem C08_inv_join_run : forall i a r cur ep d ops,
   Inv (erun (join_client i a r cur ep d) ops) /\ queue_wf (erun (join_client i a r cur ep d) ops).
 Proof. exact inv_join_erun. Qed.
 Print Assumptions C08_inv_join_run.
+
+(* ---- the invitation path (Mdk/Welcome.v): a new decodable invitation to a group the user is not active in rewrites the
+   stored record from the invitation, and accepting keeps epoch and group data; a member that processed its own removal is
+   not active, so a later re-invitation refreshes its stale record *)
+Theorem C08_invitation_refreshes_record : forall s w id,
+  i_shape w = true -> aget N.eqb (i_wrapper w) (pwelcomes s) = None -> previewable s w = true ->
+  is_active s (i_gid w) = false -> i_id w = Some id ->
+  let s1 := fst (process_welcome s w) in
+  exists r, aget N.eqb (i_gid w) (groups s1) = Some r /\ g_state r = GS_PENDING /\ g_epoch r = i_epoch w /\ g_data r = i_data w.
+Proof. exact invitation_refreshes_record. Qed.
+Print Assumptions C08_invitation_refreshes_record.
+
+(* accepting an invitation leaves the record of the joined group with the epoch and group data of the MLS state joined,
+   whatever other invitation (older or newer) last wrote the pending record (before fix: the record kept what the LAST
+   processed invitation said, so accepting an older invitation gave a record one or more epochs ahead of the MLS state) *)
+Theorem C08_accept_record_mirrors_joined_state : forall s id wr r,
+  aget N.eqb id (welcomes s) = Some wr -> previewable s (w_inv wr) = true ->
+  aget N.eqb (w_gid wr) (groups s) = Some r ->
+  exists r', aget N.eqb (w_gid wr) (groups (fst (accept_welcome s id))) = Some r' /\
+             g_state r' = GS_ACTIVE /\ g_epoch r' = i_epoch (w_inv wr) /\ g_data r' = i_data (w_inv wr) /\
+             aget N.eqb (w_gid wr) (mls (fst (accept_welcome s id))) = Some (i_state (w_inv wr)).
+Proof. exact accept_record_mirrors_joined_state. Qed.
+Print Assumptions C08_accept_record_mirrors_joined_state.
+
+Theorem C08_removed_member_not_active : forall s g, is_active (evict s g) g = false.
+Proof. exact evict_deactivates. Qed.
+Print Assumptions C08_removed_member_not_active.
